@@ -4,8 +4,8 @@ SPEC = {
     'technique': 'bounded-exhaustive enumeration of well-formed stub configurations x call tuples, each installed and called on the real '
                  'library (real calls to //go:noinline targets and (*When).Eval) and compared with an independent reference interpreter '
                  'of the rule in the statement; violations are shrunk by deterministic re-execution to a minimal configuration + call',
-    'claim': 'for the 8 signatures f1(int), f2(int,string), f3(interface{},int), (*S).M(int,int), (S).V(int,int), v0(...int), '
-             'v1(int,...int), v2(string,int,...string): for every configuration default in {none, Return(d)} x clause list of length '
+    'claim': 'for the 12 signatures f1(int), f2(int,string), f3(interface{},int), u1(uint64), b1(int64) (conditions written as plain int literals), (*S).M(int,int), (S).V(int,int), v0(...int), '
+             'v1(int,...int), (*S).VM(int,...int), vi(string,...interface{}) (an element may itself be a slice), v2(string,int,...string): for every configuration default in {none, Return(d)} x clause list of length '
              '<= 2 (quick) / <= 3 (thorough) over the clause alphabet, and every call tuple over {a,b,c} per parameter (variadic tails of '
              'length 0..2, two receivers for methods), the real call and Eval return the result of the first-registered matching clause, '
              'else the default, else panic with "no suitable condition"',
